@@ -90,6 +90,7 @@ func New[T any](
 	tree.node.root = tree
 	tree.node.handlers = map[string]T{
 		http.MethodOptions: tree.optionsBuilder(tree.node),
+		methodNotAllowed:   tree.methodNotAllowedBuilder(tree.node), // GET * 等非 OPTIONS 请求
 	}
 
 	if lock {
